@@ -10,7 +10,7 @@ From Coq Require Import ZArith QArith Qcanon List Lia Bool.
 From Coq Require Import Reals.
 From Coquelicot Require Import Coquelicot.
 From RV Require Import Base.Num Base.Vec Mech.Spline Inst Proofs.QcInst Proofs.ListLemmas Proofs.SplineProofs
-     Proofs.SplineDer Proofs.SplineDerList Proofs.DerProofs Proofs.SplineDerReal Proofs.SplineDerBounded Proofs.SplineHull Proofs.SplineChain Proofs.SplineTime.
+     Proofs.SplineDer Proofs.SplineDerList Proofs.DerProofs Proofs.SplineDerReal Proofs.SplineDerBounded Proofs.SplineHull Proofs.SplineChain Proofs.SplineTime Proofs.VacuityB.
 Import ListNotations.
 Local Open Scope nat_scope.
 
@@ -193,6 +193,48 @@ Theorem C17_derivative_coefficients_on_physical_knots :
 Proof. exact bspline_derivative_affine_knots_R. Qed.
 Print Assumptions C17_derivative_coefficients_on_physical_knots.
 
+(* TIGHT forms (vacuity audit, Proofs/VacuityB.v).  The four theorems above about an abstract knot function
+   k : nat -> F and C17_basis_nonnegative assume knot separation / monotonicity for ALL indices b > j.  That is met by an
+   infinite strictly increasing sequence, but NOT by the knot function the model actually passes, knot_fun K, which pads with 0
+   beyond the end of the knot list: whenever one of K_0..K_j is 0 (every grid starting at 0, every normalized grid) the
+   unbounded hypothesis is false (unbounded_separation_unsatisfiable, unbounded_monotonicity_unsatisfiable).  The forms below
+   only constrain the knots that are read (b <= j + E + 1) and are the ones that apply to knot_fun K;
+   C17_knot_fun_instance (Proofs/VacuityB.v) instantiates them on clamped [0; 1/2; 1]. *)
+Theorem C17_partition_of_unity_tight :
+  forall (F : Type) (OF : Ops F), FieldLaws OF ->
+  forall (k : nat -> F) (j E : nat),
+    (forall a b, a <= j -> j < b -> b <= j + E + 1 -> k b -! k a <> o0) ->
+  forall (x : F) (e n : nat), e <= E -> e <= j -> j < n -> sumf (cdb k j x e) n = o1.
+Proof. intros F OF Fl k j E H x e n. exact (@partition_of_unity_tight F OF Fl k j E H x e n). Qed.
+Print Assumptions C17_partition_of_unity_tight.
+
+Theorem C17_spline_derivative_coefficients_exact_tight :
+  forall (F : Type) (OF : Ops F), FieldLaws OF ->
+  forall (k : nat -> F) (j E : nat),
+    (forall a b, a <= j -> j < b -> b <= j + E + 1 -> k b -! k a <> o0) ->
+  forall (x : F) (c : nat -> F) (e' n : nat), S e' <= E -> S e' <= j -> j < n ->
+    sumf (fun i => c i *! dcdb k j x (S e') i) n
+    = sumf (fun i => of_nat (S e') *! (c (S i) -! c i) /! (k (S i + S e') -! k (S i)) *! cdb k j x e' (S i)) (n - 1).
+Proof. intros F OF Fl k j E H x c e' n. exact (@spline_derivative_tight F OF Fl k j E H x c e' n). Qed.
+Print Assumptions C17_spline_derivative_coefficients_exact_tight.
+
+Theorem C17_spline_derivative_is_analytic_tight :
+  forall (k : nat -> R) (j : nat) (c : nat -> R) (e' n : nat) (x : R),
+    (forall a b, a <= j -> j < b -> b <= j + S e' + 1 -> (k b - k a <> 0)%R) -> S e' <= j -> j < n ->
+    is_derive (fun y => @sumf R ROps (fun i => (c i * @cdb R ROps k j y (S e') i)%R) n) x
+              (@sumf R ROps (fun i => (@of_nat R ROps (S e') * (c (S i) - c i) / (k (S i + S e')%nat - k (S i))
+                                       * @cdb R ROps k j x e' (S i))%R) (n - 1)).
+Proof. exact spline_is_derive_tight. Qed.
+Print Assumptions C17_spline_derivative_is_analytic_tight.
+
+Theorem C17_basis_nonnegative_bounded :
+  forall (F : Type) (OF : Ops F), FieldLaws OF -> forall le : F -> F -> Prop, OrderLaws OF le ->
+  forall (k : nat -> F) (j d : nat) (x : F),
+    (forall a b, a <= b -> b <= j + d + 1 -> le (k a) (k b)) -> k j <> k (S j) -> le (k j) x -> le x (k (S j)) ->
+    forall e i, e <= d -> le o0 (cdb k j x e i).
+Proof. exact @basis_nonnegative_bounded. Qed.
+Print Assumptions C17_basis_nonnegative_bounded.
+
 (* non-vacuity: quadratic basis on clamped knots 0,0,0,1/2,1,1,1 at x = 1/4 (span j = 2): 9/16... sums to 1 *)
 Local Existing Instance QcOps.
 Example C17_nonvacuous :
@@ -221,4 +263,4 @@ Qed.
    the convex-hull theorem: proved in Proofs/SplineDerBounded.v and Proofs/SplineHull.v *)
 Example C17_bounded_derivative_nonvacuous : True /\ True.
 Proof. pose proof spline_derivative_lists_bounded_nonvacuous as _. pose proof SplineHull_nonvacuous as _.
-  pose proof spline_chain_nonvacuous_R as _. pose proof spline_physical_time_nonvacuous_R as _. split; exact I. Qed.
+  pose proof spline_chain_nonvacuous_R as _. pose proof spline_physical_time_nonvacuous_R as _. pose proof C17_knot_fun_instance as _. split; exact I. Qed.
